@@ -96,7 +96,9 @@ pub fn template(t: u8) -> VDoc {
         t if t >= 100 => {
             let k = t as u64 - 100;
             let name = format!("p{k}");
-            vdoc_codes(&name, 100 + k, None, &[], &[name.as_str()], "bulk")
+            // distinct tokens per document, so the text index spreads over several buckets
+            let body = format!("w{k} v{k} bulk");
+            vdoc_codes(&name, 100 + k, None, &[], &[name.as_str()], &body)
         }
         _ => panic!("no template {t}"),
     }
